@@ -351,11 +351,27 @@ func checkC10(w *World, st core.Status, r *RunResult) []Violation {
 		// client deadline -> header -> handler deadline
 		hv := ex.ReqHeader[name]
 		d := p.Deadline
+		dmax := d // the most that can have remained when the header was made final
 		if rs := o.Call.RequestStart(); d > 0 && !rs.IsZero() {
-			// what remained at the instant the library started the request (the
-			// caller may have been idle since it created the stream, and every
-			// scheduling step costs a microsecond of fake time)
+			// The header is made final when the library starts the request:
+			// somewhere between the beginning of the caller's first request-side
+			// operation and the first write reaching the transport (the caller may
+			// have been idle since it created the stream, and every scheduling
+			// step costs a microsecond of fake time). d is the least that can have
+			// remained then, dmax the most.
 			d -= rs.Sub(o.StartTime)
+			dmax = d
+			for _, op := range o.Ops {
+				switch op.Op {
+				case "send", "closereq", "unary", "closeandreceive", "callserverstream":
+					if !op.StartT.IsZero() && op.StartT.Before(rs) {
+						dmax = p.Deadline - op.StartT.Sub(o.StartTime)
+					}
+				}
+				if dmax != d {
+					break
+				}
+			}
 			if d <= 0 {
 				r.Probes["deadline_passed_before_request"]++
 				continue
@@ -379,6 +395,12 @@ func checkC10(w *World, st core.Status, r *RunResult) []Violation {
 		expressible := true
 		if proto == PConnect {
 			expressible = d/time.Millisecond < time.Duration(pow10(10))
+			if expressible != (dmax/time.Millisecond < time.Duration(pow10(10))) {
+				// the remaining time crossed the 10-digit limit while the request
+				// was being started: either answer is right
+				r.Probes["expressibility_boundary_crossed"]++
+				continue
+			}
 			if d < time.Millisecond {
 				// expressible as 0: not longer than the time remaining, short by
 				// less than the granularity - and the handler gets a deadline
@@ -409,8 +431,8 @@ func checkC10(w *World, st core.Status, r *RunResult) []Violation {
 			add("timeout-overflows", fmt.Sprintf("client sent %s: %q which exceeds the runtime's range", name, hv[0]))
 			continue
 		}
-		if val > d {
-			add("timeout-extended", fmt.Sprintf("remaining %v, sent %q = %v", d, hv[0], val))
+		if val > dmax {
+			add("timeout-extended", fmt.Sprintf("remaining %v at most, sent %q = %v", dmax, hv[0], val))
 		}
 		loss := d - val
 		if proto == PConnect {
